@@ -86,7 +86,8 @@ type parked struct {
 	order     uint64 // park order (FIFO fairness)
 	nsel      int    // >0: parked at a select with nsel cases; the scheduler fills pref
 	pref      int
-	lazy      bool // environment action: released only when the policy asks for it or nothing else can run
+	onQuiesce func() // run once by the scheduler at the next quiescent point, before anything is released
+	lazy      bool   // environment action: released only when the policy asks for it or nothing else can run
 	notBefore int64
 }
 
@@ -305,6 +306,31 @@ func EnvPoint(site string, lazy bool, notBefore int64) {
 	if s := active(); s != nil {
 		s.park(site, nil, 0, lazy, notBefore)
 	}
+}
+
+// EnvQuiesce parks the calling environment goroutine and has the scheduler run fn at the next
+// quiescent point, before any goroutine is released: fn observes a state in which every goroutine
+// has either finished or is durably blocked (used to sample "what is still alive when the call
+// returned" without racing against goroutines that are just exiting).
+func EnvQuiesce(site string, fn func()) {
+	s := active()
+	if s == nil {
+		fn()
+		return
+	}
+	g := lookup()
+	if g == nil || g.sim != s {
+		fn()
+		return
+	}
+	g.LastSite = site
+	p := &parked{g: g, site: site, ch: make(chan struct{}), onQuiesce: fn}
+	s.mu.Lock()
+	s.parked[g.Name] = p
+	s.sitesHit[site]++
+	s.mu.Unlock()
+	s.Notify()
+	<-p.ch
 }
 
 // Lock is a modelled sync.Mutex.Lock.
@@ -664,6 +690,23 @@ func (s *Sim) Run(until func() bool) Outcome {
 		if npanic > 0 {
 			return Panicked
 		}
+		s.mu.Lock()
+		var calls []func()
+		var names []string
+		for name, p := range s.parked {
+			if p.onQuiesce != nil {
+				names = append(names, name)
+			}
+		}
+		sort.Strings(names)
+		for _, name := range names {
+			calls = append(calls, s.parked[name].onQuiesce)
+			s.parked[name].onQuiesce = nil
+		}
+		s.mu.Unlock()
+		for _, f := range calls {
+			f()
+		}
 		if until() {
 			return Completed
 		}
@@ -861,6 +904,18 @@ func (s *Sim) LiveEngineGoroutines() []string {
 		out = append(out, g.Name+" "+where)
 	}
 	sort.Strings(out)
+	return out
+}
+
+// LiveEngineGoroutinesOf is LiveEngineGoroutines restricted to goroutines whose name has the prefix
+// (the call tree of one client).
+func (s *Sim) LiveEngineGoroutinesOf(prefix string) []string {
+	var out []string
+	for _, l := range s.LiveEngineGoroutines() {
+		if strings.HasPrefix(l, prefix) {
+			out = append(out, l)
+		}
+	}
 	return out
 }
 
